@@ -124,6 +124,8 @@ def this_use(stack, methods):
             continue
         if k == "ReturnStmt":
             return "R"                                    # return *this;
+        if k == "BinaryOperator" and parent.get("opcode") in ("==", "!=", "<", ">", "<=", ">="):
+            return "R"                                    # built-in comparison of the pointer value (this == &other): reads only
         if k == "MemberExpr" and inner and inner[0] is child:
             if parent.get("type", {}).get("qualType") == "<bound member function type>":
                 q = methods.get(parent.get("referencedMemberDecl"))
